@@ -222,8 +222,8 @@ def run_batches(prop, tier, base, spec, workers, wall_cap, runs_scale=1.0):
     with cf.ProcessPoolExecutor(max_workers=workers, mp_context=ctx, initializer=_worker_init) as ex:
         futs = {ex.submit(_worker_chunk, t): t for t in tasks}
         try:
-            for fut in cf.as_completed(futs, timeout=wall_cap):
-                t = futs[fut]
+            for fut in cf.as_completed(list(futs), timeout=wall_cap):
+                t = futs.pop(fut)  # drop the reference: results of big batches must not pile up
                 try:
                     for res in fut.result():
                         agg.add(res, fault_batches[res["batch"]])
